@@ -143,6 +143,50 @@ class Clean:
             r = None
             if isinstance(e.func, (ast.Name, ast.Attribute)):
                 r = self.prog.resolve_expr(mod, e.func)
+            if not (r and r[0] == 'func') and isinstance(e.func, ast.Name):
+                # a local bound to one of several functions
+                # ("check = _par if .. else _seq; x = check(..)")
+                cfg_, RD_ = self.rdefs(mod, func)
+                ds_ = (RD_.get(node) or {}).get(e.func.id) or ()
+                alts = []
+                okalt = bool(ds_)
+                for d_ in ds_:
+                    if d_ == 'param' or not (d_.kind == 'stmt' and isinstance(
+                            d_.ast, ast.Assign)):
+                        okalt = False
+                        break
+                    v_ = d_.ast.value
+                    cands = [v_.body, v_.orelse] if isinstance(
+                        v_, ast.IfExp) else [v_]
+                    for c_ in cands:
+                        rr_ = self.prog.resolve_expr(mod, c_) if isinstance(
+                            c_, (ast.Name, ast.Attribute)) else None
+                        if not (rr_ and rr_[0] == 'func'):
+                            okalt = False
+                        else:
+                            alts.append(rr_)
+                if okalt and alts:
+                    for rr_ in alts:
+                        fake = ast.Call(func=ast.Name(id=rr_[2],
+                                                      ctx=ast.Load()),
+                                        args=e.args, keywords=e.keywords)
+                        gm, gq = rr_[1], rr_[2]
+                        g = gm.funcs[gq]
+                        gcfg = cfg_of(g)
+                        rets = [n for n in gcfg.nodes if n.kind == 'stmt'
+                                and isinstance(n.ast, ast.Return)]
+                        if not rets:
+                            return (False, f'{gq} returns nothing')
+                        for rn in rets:
+                            if rn.ast.value is None:
+                                return (False, f'{gq} may return None')
+                            r2 = self.value(gm, g, rn, rn.ast.value, idx,
+                                            depth + 1)
+                            if not r2[0]:
+                                return (False, f'return of {gq} at '
+                                        f'{gm.loc(rn.ast)}: {r2[1]}')
+                    return (True, 'every return of every function the '
+                            f'local "{e.func.id}" may denote')
             if r and r[0] == 'func':
                 gm, gq = r[1], r[2]
                 g = gm.funcs[gq]
